@@ -544,7 +544,12 @@ impl ReqPlan {
                     let mut sink = vec![0u8; *pre];
                     let _ = f.read_exact(&mut sink);
                 }
-                rb.file(f).send()
+                // (no draw) the two ways to hand a file over: the helper, or the body type itself
+                if *pre % 2 == 1 {
+                    rb.body(attohttpc::body::File(f)).send()
+                } else {
+                    rb.file(f).send()
+                }
             }
             BodySpec::Json(v) => rb.json(v)?.send(),
             BodySpec::JsonStreaming(v) => rb.json_streaming(v.clone()).send(),
@@ -609,7 +614,11 @@ impl ReqPlan {
                     let mut sink = vec![0u8; *pre];
                     let _ = f.read_exact(&mut sink);
                 }
-                prepare_and_send(rb.file(f), times)
+                if *pre % 2 == 1 {
+                    prepare_and_send(rb.body(attohttpc::body::File(f)), times)
+                } else {
+                    prepare_and_send(rb.file(f), times)
+                }
             }
             BodySpec::Json(v) => match rb.json(v) {
                 Ok(rb) => prepare_and_send(rb, times),
